@@ -16,7 +16,7 @@ def conc_value(v):
     if v["k"] == "str":
         if "lit" in v:
             return dict(URLS, **TITLES)[v["lit"]]
-        return " ".join(["zz"] + [WORDS[w["t"]][0 if w["c"] == "l" else 1] for w in v["toks"]] + ["qq"])
+        return " ".join(WORDS[w["t"]][0 if w["c"] == "l" else 1] for w in v["toks"])
     if v["k"] == "int":
         return 7
     if v["k"] == "list":
@@ -31,6 +31,8 @@ def conc_rule(r):
             d["regex"] = ""
     else:
         d["regex"] = WORDS[r["rx"]["t"]][0 if r["rx"]["c"] == "l" else 1]
+        if r["rx"].get("t2"):
+            d["regex"] += r"\s+" + WORDS[r["rx"]["t2"]][0 if r["rx"]["c"] == "l" else 1]
     if r["ic"] or r.get("ic_explicit"):
         d["ignore_case"] = r["ic"]
     if r["hs"]:
@@ -72,7 +74,8 @@ class Cc:
 
 
 def abs_rule(r):
-    return {"rx": r["rx"], "ic": r["ic"], "hs": r["hs"] and bool(r["sk"]), "sk": list(r["sk"])}
+    rx = {"t": r["rx"]["t"], "c": r["rx"]["c"], "t2": r["rx"].get("t2", "")}
+    return {"rx": rx, "ic": r["ic"], "hs": r["hs"] and bool(r["sk"]), "sk": list(r["sk"])}
 
 
 def rand_value(rnd):
@@ -97,7 +100,8 @@ def rand_events(rnd, n):
 def rand_rule(rnd):
     t = rnd.choice(["t1", "t2", "t3", "t4", "t1", ""])
     sk = rnd.choice([[], [], ["k1"], ["k2"], ["k9", "k1"], ["k3", "k2"]])
-    return {"rx": {"t": t, "c": rnd.choice("lu") if t else "l"}, "ic": rnd.random() < 0.4, "hs": bool(sk) or rnd.random() < 0.2, "sk": sk,
+    t2 = rnd.choice(["t1", "t2", "t3", "t4"]) if t and rnd.random() < 0.25 else ""
+    return {"rx": {"t": t, "c": rnd.choice("lu") if t else "l", "t2": t2}, "ic": rnd.random() < 0.4, "hs": bool(sk) or rnd.random() < 0.2, "sk": sk,
             "rxmode": rnd.choice(["empty", "missing"]), "ic_explicit": rnd.random() < 0.5}
 
 
